@@ -4,7 +4,7 @@ CHECK = {
     "harness": "c02_enu.cpp",
     "srcs": GEODESY,
     "flavours": ["asan"],
-    "quick": {"shards": 4, "timeout": 600},
+    "quick": {"shards": 8, "timeout": 600},
     "thorough": {"shards": 16, "timeout": 3600},
     "required_categories": ["history_random", "history_reset_auto_geodetic", "history_reset_auto_wgs84",
                             "history_reanchor_no_reset", "history_default_auto", "has_reset", "has_reanchor",
